@@ -531,6 +531,21 @@ fn nusvc<F: Scalar>(pr: &Params) {
                 }
             }
         }
+        if pr.u("sep", 0) == 1 {
+            // restrict to linearly separable 1-D configurations: on data whose optimal margin is zero the
+            // nu formulation is degenerate (r = 0) - that region has its own job (recorded finding)
+            let mut above = vec![];
+            let mut below = vec![];
+            for i in 0..n {
+                for j in 0..n {
+                    if y[i] && !y[j] {
+                        above.push(x[(j, 0)].s_lt(x[(i, 0)]));
+                        below.push(x[(i, 0)].s_lt(x[(j, 0)]));
+                    }
+                }
+            }
+            assume(SymB::all(&above).or(SymB::all(&below)));
+        }
         diversify(&x.iter().cloned().collect::<Vec<F>>(), pr.u("div", 0));
     }
     let q = int::<F>("q", -b, b);
